@@ -193,13 +193,14 @@ Definition compile (x : xform) : compiled :=
 
 Definition apply_prog (x : xform) : prog := c_prog (compile x).
 
-(* tt.apply(); the order of the code is deletions before the metadata update *)
+(* tt.apply(): the metadata update (apply_inventory_delta / _apply_index_changes) runs BEFORE
+   mover.apply_deletions()  (breezy/bzr/transform.py and breezy/git/transform.py since c37d45c) *)
 Definition apply_model (x : xform) (flt : fault) (f0 : fs) (inv0 : list path) : outcome :=
-  run_with_fault false (apply_prog x) flt f0 inv0.
-
-(* the same with the metadata update moved before apply_deletions *)
-Definition apply_model_fixed (x : xform) (flt : fault) (f0 : fs) (inv0 : list path) : outcome :=
   run_with_fault true (apply_prog x) flt f0 inv0.
+
+(* documentation only: the order before c37d45c (apply_deletions before the metadata update) *)
+Definition apply_model_old (x : xform) (flt : fault) (f0 : fs) (inv0 : list path) : outcome :=
+  run_with_fault false (apply_prog x) flt f0 inv0.
 
 (* what the caller's  finally: tt.finalize()  does after a failed apply *)
 Definition finalize_after (x : xform) (o : outcome) : fs * option exc :=
